@@ -237,3 +237,19 @@ Theorem C13Bls_sparse_roundtrip_ids : forall p, pinv p -> pcl p -> t_n (p_tree p
     p_bits q = p_bits p /\ sparse_indices (p_tree q) = Ok ids' /\ Permutation ids' ids.
 Proof. exact sparse_roundtrip_ids. Qed.
 Print Assumptions C13Bls_sparse_roundtrip_ids.
+
+From GV Require Import Monitors.C13Blsm Proofs.BlsTreeMonBase Proofs.BlsTreeMonitor.
+
+(** (4) model_satisfies_monitor as a theorem: the monitor C13Blsm (the set-union specification that judges the
+    real code's observations on every run) accepts the model's own run of ANY operation sequence - New,
+    AddSignature with any key and signature, Merge, MergeSparse with any entries, MergeSparse(AsSparse),
+    HasSparseKeyID, AsSparse, Clone, Derive, SignatureBitSet, unknown registers - provided every constructed key
+    set has at most 32768 keys or is rejected by the constructor ([op_small]). *)
+Theorem C13Bls_model_satisfies_monitor : forall ops, Forall op_small ops -> c13bls_mon ops (run ops) = None.
+Proof. exact model_satisfies_monitor. Qed.
+Print Assumptions C13Bls_model_satisfies_monitor.
+
+(** the guard is exact in kind: with 32769 keys the monitor rejects the model's sparse round trip (the known finding) *)
+Theorem C13Bls_model_satisfies_monitor_guard_needed : exists ops, c13bls_mon ops (run ops) <> None.
+Proof. exact model_satisfies_monitor_guard_needed. Qed.
+Print Assumptions C13Bls_model_satisfies_monitor_guard_needed.
